@@ -5,7 +5,7 @@
    Corr/CorrC02.v on every run.  Reference semantics: Sem/Sem.v.  math.Pow (`f_pow`), the regexp
    oracle and the behaviour of environment functions (`fn_run`) are fields of `fenv`: every
    theorem holds for every `fenv`. *)
-From Coq Require Import ZArith Bool List String Floats.
+From Coq Require Import ZArith Bool List String.
 Require Import X.Base.Num X.Base.Value X.Syn.Ast X.Sem.Prim X.Sem.Sem X.Opt.Optimizer X.Opt.OptProofs.
 Import ListNotations.
 Open Scope Z_scope.
